@@ -221,7 +221,7 @@ def main(tier):
         reached.update(o["reached"])
     for can, o in zip(CANARIES, outs[len(S):]):
         ref = o[0] == "ok" and not o[1]["error"] and any(r["status"] != "proved" for r in o[1]["results"])
-        ck.canaries.append((f"{can[0]}: {can[2]!r} -> {can[3]!r}", ref))
+        ck.canary(f"{can[0]}: {can[2]!r} -> {can[3]!r}", ref, o)
     for f in FUNCS:
         short = f.replace("jaxley.", "").replace("utils.", "")
         n = reached.get(f, 0)
